@@ -161,4 +161,25 @@ def glob (m : Matcher) (fs : Fs) (noglob : Bool) (field : List AttrChar) : List 
     let results := searchField m fs field
     if results.isEmpty then [removeQuotes field] else sortPaths results
 
+/-- `yash_syntax::syntax::ExpansionMode`: how the caller wants a word expanded -/
+inductive Mode where
+  /-- `Single`: scalar assignment values (`expand_value`, `Scalar`), `name=value` operands of declaration
+      utilities (`expand_word_with_mode`, `Single`): initial expansion, quote removal — no field
+      splitting, no pathname expansion -/
+  | single
+  /-- `Multiple`: command words, `for` word lists, array assignment values (`expand_words`,
+      `expand_word_multiple`): every field that field splitting delivers goes through `glob` -/
+  | multiple
+  deriving DecidableEq, Repr
+
+/-- The last step of `expand_word_with_mode` / `expand_words` in yash-semantics/src/expansion.rs, on
+    the fields that the initial expansion and field splitting deliver (for `Single`: the one joined
+    field): `Multiple` runs `glob` on each field in order and appends the results
+    (`results.extend(fields)`); `Single` only removes quotes. -/
+def expandFields (m : Matcher) (fs : Fs) (noglob : Bool) (mode : Mode) (fields : List (List AttrChar)) :
+    List Path :=
+  match mode with
+  | Mode.multiple => fields.flatMap (glob m fs noglob)
+  | Mode.single => fields.map removeQuotes
+
 end YashModel.Glob
